@@ -62,7 +62,9 @@ def run(rep, tier):
                 "reject, or accept with a demanded feature")
     rep.assumptions += ["programs rustc itself rejects syntactically (impl Trait in fields, nested callbacks) are outside the grammar",
                         "feature profiles are probed from the diplomat-tool binary built from the current tree"]
-    cfg = "gate1_emit.cfg" if tier == "quick" else "gate2_emit.cfg"
+    # depth 2 in both tiers (19 s): depth 1 has no Option<&T> / Option<Box<T>> / DiplomatOption<&T> at all, and the coverage
+    # measurement showed their error branches in lowering.rs unreached by the quick tier
+    cfg = "gate2_emit.cfg"
     r = lib.tlc("gate", "MC_Gate", cfg, workers=8, coverage=False)
     lib.tlc_expect_ok(r, "Gate: operational == declarative")
     rep.add_tlc("Gate", r)
